@@ -129,6 +129,11 @@ func checkGate(c *Ctx, res *report.Result, f *ssa.Function, handler ssa.Value, g
 	}
 	gates := flow.FindCalls(f, g.isGate)
 	if len(gates) == 0 {
+		// the test may have been factored into a helper of the module: summarise the helper and use it as the gate
+		if hg, ok := helperGate(c, res, f, g); ok {
+			checkGate(c, res, f, handler, hg)
+			return
+		}
 		res.Viol(g.rule, fname+": "+g.name+" consulted", fnPos(c.Prog, f), "the interceptor never calls "+g.name+": nothing stands between the caller and the handler")
 		return
 	}
@@ -246,4 +251,144 @@ func hasClass(cs []condClass, kind, arg string, truth bool) bool {
 		}
 	}
 	return false
+}
+
+// helperGate: f does not call the gate itself but a module function H that does. H qualifies as the gate when
+// (a) one of its boolean results is a constant X on every return reachable from a refusing outcome of the inner gate
+// (X = "refuse"), and (b) no return of H can yield the permitting value !X without the inner gate having permitted,
+// except across a legitimate bypass edge. Then the call of H, with verdict index and polarity, is the gate of f.
+func helperGate(c *Ctx, res *report.Result, f *ssa.Function, g gateSpec) (gateSpec, bool) {
+	for _, call := range flow.Calls(f) {
+		H := flow.StaticCallee(call.Common())
+		if H == nil || H == f || H.Package() == nil || !strings.HasPrefix(H.Package().Pkg.Path(), modPath) || len(H.Blocks) == 0 {
+			continue
+		}
+		inner := flow.FindCalls(H, g.isGate)
+		if len(inner) != 1 {
+			continue
+		}
+		gv, ok := inner[0].(*ssa.Call)
+		if !ok || g.resultIdx >= 0 {
+			continue
+		}
+		hname := shortFn(H)
+		results := H.Signature.Results()
+		idx := -1
+		for i := 0; i < results.Len(); i++ {
+			if types.Identical(results.At(i).Type().Underlying(), types.Typ[types.Bool]) {
+				idx = i
+			}
+		}
+		if idx < 0 {
+			continue
+		}
+		// refusing edge of the inner gate inside H
+		var refuseSucc *ssa.BasicBlock
+		for _, b := range H.Blocks {
+			iff := lastIfOf(b)
+			if iff == nil || len(b.Succs) != 2 {
+				continue
+			}
+			cond, neg := iff.Cond, false
+			for {
+				if u, isU := cond.(*ssa.UnOp); isU && u.Op == token.NOT {
+					cond, neg = u.X, !neg
+					continue
+				}
+				break
+			}
+			if flow.ResolveLoad(cond) != ssa.Value(gv) {
+				continue
+			}
+			refuseWhenTrue := !g.allowed
+			if neg {
+				refuseWhenTrue = !refuseWhenTrue
+			}
+			if refuseWhenTrue {
+				refuseSucc = b.Succs[0]
+			} else {
+				refuseSucc = b.Succs[1]
+			}
+		}
+		construct := fmt.Sprintf("%s: helper %s is a faithful wrapper of %s", shortFn(f), hname, g.name)
+		if refuseSucc == nil {
+			res.Viol(g.rule, construct, fnPos(c.Prog, H), "the helper calls "+g.name+" but never branches on its result")
+			return gateSpec{}, false
+		}
+		// (a) every return reachable from the refusing edge yields one constant
+		var refuseVal *bool
+		okConst := true
+		for _, b := range H.Blocks {
+			if b != refuseSucc && !flow.ReachBlock(refuseSucc, b, nil) {
+				continue
+			}
+			if len(b.Instrs) == 0 {
+				continue
+			}
+			ret, isR := b.Instrs[len(b.Instrs)-1].(*ssa.Return)
+			if !isR {
+				continue
+			}
+			v, isC := flow.ConstBool(flow.Ret(ret)[idx])
+			if !isC {
+				okConst = false
+				res.Viol(g.rule, construct, instrPos(c.Prog, ret), "on the refusing outcome of "+g.name+" the helper's verdict is not a constant ("+flow.Describe(flow.Ret(ret)[idx])+"): a refused call can come back as permitted")
+				continue
+			}
+			if refuseVal == nil {
+				refuseVal = &v
+			} else if *refuseVal != v {
+				okConst = false
+				res.Viol(g.rule, construct, instrPos(c.Prog, ret), "the refusing outcome of "+g.name+" yields different verdicts on different paths")
+			}
+		}
+		if !okConst || refuseVal == nil {
+			return gateSpec{}, false
+		}
+		permit := !*refuseVal
+		// (b) the permitting verdict only after the inner gate or across a bypass edge
+		isInner := func(x ssa.Instruction) bool { return x == ssa.Instruction(gv) }
+		isPermitReturn := func(x ssa.Instruction) bool {
+			ret, isR := x.(*ssa.Return)
+			if !isR {
+				return false
+			}
+			v, isC := flow.ConstBool(flow.Ret(ret)[idx])
+			return !isC || v == permit
+		}
+		edgeOK := func(a, b *ssa.BasicBlock) bool { return !g.bypassOK(edgeClasses(a, b)) }
+		if r := flow.FindPath(flow.Point{Block: H.Blocks[0]}, isPermitReturn, isInner, edgeOK); r.Found {
+			res.Viol(g.rule, construct, instrPos(c.Prog, r.End), "the helper can return the permitting verdict without having consulted "+g.name+" (path "+flow.BlockPath(r.Via)+")")
+			return gateSpec{}, false
+		}
+		res.Hold(g.rule, construct, fnPos(c.Prog, H), fmt.Sprintf("result #%d is %v exactly on the refusing outcome; the permitting value needs the inner test or a bypass edge", idx, *refuseVal))
+		// the key the inner gate is consulted with is the method name of f's own call
+		keyOK := false
+		for _, a := range gv.Call.Args {
+			mn, isC := a.(*ssa.Call)
+			if !isC || !flow.IsCallTo(&mn.Call, srvPath+"/common/api", "", "MethodName") {
+				continue
+			}
+			for k, hp := range H.Params {
+				if flow.Strip(flow.ResolveLoad(mn.Call.Args[0])) == ssa.Value(hp) && k < len(call.Common().Args) {
+					if p, okp := flow.FieldPath(call.Common().Args[k]); okp && strings.HasSuffix(p, ".FullMethod") {
+						keyOK = true
+					}
+				}
+			}
+		}
+		res.Check(keyOK, g.rule, fmt.Sprintf("%s: %s is consulted (through %s) with api.MethodName(info.FullMethod)", shortFn(f), g.name, hname), instrPos(c.Prog, call), "ok", "the list is not consulted with the method name of the call being intercepted")
+		ng := g
+		ng.name = hname + " (wrapping " + g.name + ")"
+		ng.isGate = func(cc *ssa.CallCommon) bool { return flow.StaticCallee(cc) == H }
+		ng.allowed = permit
+		ng.resultIdx = idx
+		if results.Len() == 1 {
+			ng.resultIdx = -1
+		}
+		// inside f the helper is called unconditionally or behind bypass edges that the helper re-tests itself
+		ng.bypassOK = func(cs []condClass) bool { return g.bypassOK(cs) }
+		return ng, true
+	}
+	return gateSpec{}, false
 }
